@@ -167,7 +167,9 @@ func c13Reference(spec ReSpec, op *Op, cap int64) c13ref {
 // >= what one pass can push) rather than the growth logic
 var packedUnits = []string{`(?:ab){0,2}?`, `(?:ab){0,2}`, `(?:x)??`, `(?:x)?`, `(a)`, `(?<n>a)?`, `(?=a)`, `(?!b)`, `(?<=a)`, `(?>a|b)?`,
 	`(?:a|b|c)`, `(?:ab|a)??`, `(a)?(?(1)b|c)`, `(?<o>a)(?<-o>b)?`, `a*?`, `[ab]{1,3}?`, `(?:a{1,2}?){1,2}?`, `\b`, `(?i:a)??`,
-	`()`, `(?:\b|\B)`, `(?:(?=a)|x)`, `(?:^|a)`}
+	`()`, `(?:\b|\B)`, `(?:(?=a)|x)`, `(?:^|a)`,
+	// greedy single-character loops (one instruction each, left-to-right and right-to-left variants differ)
+	`a*`, `[ab]+`, `[^z]{0,2}`, `b?`, `.*`}
 
 func packedPattern(r *rng) (string, []string) {
 	u := packedUnits[r.n(len(packedUnits))]
@@ -188,6 +190,9 @@ func packedPattern(r *rng) (string, []string) {
 		p = "(?:" + p + ")*"
 	case 1:
 		p = "^" + p
+	case 3:
+		// the whole train inside a lookbehind: the right-to-left variants of the same instructions
+		p = []string{"(?<=", "(?<!"}[r.n(2)] + p + ")" + []string{"z", "", "a"}[r.n(3)]
 	case 2:
 		// a counted loop around it (zero-width passes below the minimum are iterations, too), then more pushes
 		p = fmt.Sprintf("(?:%s){%d%s}%s", p, 2+r.n(30), []string{"", ",", ",40"}[r.n(3)], []string{"", "?"}[r.n(2)]) + []string{"", "(a)(b)(c)", "(a)?(b)?", "abc"}[r.n(4)]
